@@ -131,19 +131,13 @@ def run_driver(calls, timeout=600):
 
 # ---------------------------------------------------------------- build + coq step
 def ensure_built(log):
-    lock = open(os.path.join(ROOT, ".build.lock"), "w")
-    fcntl.flock(lock, fcntl.LOCK_EX)
-    try:
-        t0 = time.time()
-        p = subprocess.run(["/bin/sh", os.path.join(ROOT, "build.sh")], capture_output=True, text=True,
-                           timeout=3600)
-        log(f"build: rc={p.returncode} {time.time()-t0:.1f}s")
-        if p.returncode != 0:
-            log(p.stdout[-3000:] + p.stderr[-3000:])
-        return p.returncode == 0, (p.stdout + p.stderr)[-3000:]
-    finally:
-        fcntl.flock(lock, fcntl.LOCK_UN)
-        lock.close()
+    t0 = time.time()
+    p = subprocess.run(["/bin/sh", os.path.join(ROOT, "build.sh")], capture_output=True, text=True,
+                       timeout=3600)
+    log(f"build: rc={p.returncode} {time.time()-t0:.1f}s")
+    if p.returncode != 0:
+        log(p.stdout[-3000:] + p.stderr[-3000:])
+    return p.returncode == 0, (p.stdout + p.stderr)[-3000:]
 
 
 def grep_gate():
@@ -251,7 +245,7 @@ def evaluate_cases(mod, cases, ctx):
     calls = []
     idx = []
     for i, r in enumerate(recs):
-        for j, (entry, tree) in enumerate(mod.model_calls(r["case"])):
+        for j, (entry, tree) in enumerate(mod.model_calls(r["case"], r["impl"])):
             calls.append((entry, tree_norm(tree)))
             idx.append((i, "m", j))
         chk = mod.check_calls(r["case"], r["impl"]) if hasattr(mod, "check_calls") else []
@@ -330,6 +324,33 @@ def write_replay(pid, kind, rec, extra=None):
     with open(path, "w") as f:
         json.dump(body, f, indent=1, default=str)
     return path
+
+
+def default_search(mod):
+    def search(rng, tier, seeds):
+        batch = []
+        for c in mod.generate(rng, "thorough"):
+            batch.append(c)
+            if len(batch) == 300:
+                yield batch
+                batch = []
+        if batch:
+            yield batch
+    return search
+
+
+def is_exc(obs):
+    return isinstance(obs, list) and len(obs) >= 1 and obs[0] == "!exc"
+
+
+def close(x, q, tol=Fraction(1, 10**9)):
+    """float (or int) x within tol*max(1,|q|) of the exact rational q"""
+    try:
+        fx = Fraction(x)
+    except (ValueError, OverflowError, TypeError):
+        return False
+    q = Fraction(q)
+    return abs(fx - q) <= tol * max(1, abs(q))
 
 
 def matches_known(pid, rec, known):
@@ -412,9 +433,10 @@ def main_check(pid, tier, seed, replay=None):
     if not violations and (diffs or not coq_ok or fatal):
         # correspondence or proof obligation broken: search for a concrete failing input
         found = None
-        if ok_build and hasattr(mod, "search") and not replay:
+        if ok_build and not replay:
             try:
-                for batch in mod.search(ctx.rng, tier, [d["case"] for d in diffs[:20]]):
+                searcher = mod.search if hasattr(mod, "search") else default_search(mod)
+                for batch in searcher(ctx.rng, tier, [d["case"] for d in diffs[:20]]):
                     rs = evaluate_cases(mod, batch, ctx)
                     searched += len(rs)
                     bad = [x for x in rs if x["check_fail"] and not matches_known(pid, x, known)]
